@@ -190,3 +190,12 @@ Proof.
   repeat (match goal with |- _ /\ _ => split end); vm_compute; reflexivity.
 Qed.
 Print Assumptions C10_returndata_overlap_refuted.
+
+(* Return data after a callee frame: non-empty only after a message call that returned or reverted, or a creation whose
+   initcode reverted; every other way a creation can end leaves the buffer empty. *)
+Theorem C10_returndata_after_frame : forall e, rd_after e <> [] ->
+  exists o, rd_after e = o /\ (e = FCallOk o \/ e = FCallRevert o \/ e = FCreateRevert o).
+Proof.
+  intros e H. destruct e as [o|o| | |o| ]; cbn [rd_after] in *; try congruence; exists o; split; auto.
+Qed.
+Print Assumptions C10_returndata_after_frame.
